@@ -28,6 +28,7 @@ from .types import (
     rec_optional,
     sort_of,
     sort_tag,
+    stag,
     strip_opt,
     vbool,
     vint,
@@ -88,8 +89,8 @@ class State:
     def __init__(self):
         self.vars = {}
         self.pc = []
-        self.heap = Heap()
         self.nref0 = z3.Int("nref0")
+        self.heap = Heap(self.nref0)
         self.nref = self.nref0
         self.frames = []  # active loop frames (k, nentry, mods) for frame obligations
         self.idx = []  # loop index terms in scope
@@ -155,7 +156,10 @@ class Engine:
         from . import builtins as bi
 
         self.bi = bi
-        self.fields = dict(contract.fields)
+        self.fields = {}
+        for k, v in contract.fields.items():
+            c_, _, f_ = k.rpartition(".")
+            self.fields[(bi.ALIAS.get(c_, c_) + "." + f_) if c_ else k] = v
         self.opaque_fns = {}
         self.fl = z3.Function("fl", R, R)
         self.rnd = z3.Function("rnd", R, I)
@@ -164,6 +168,7 @@ class Engine:
         self.covered = set()
         self.reveal = False
         self.events_enabled = True
+        self.local_imports = {}
 
     def _number(self, fn):
         k = 0
@@ -181,6 +186,7 @@ class Engine:
             if self.paths > self.MAX_PATHS:
                 raise OutOfSubset(f"more than {self.MAX_PATHS} paths")
             self.script, self.pos, self.taken = script, 0, []
+            self.trail = []
             self.run_path()
             for j in range(len(script), len(self.taken)):
                 for alt in self.taken[j][1]:
@@ -214,6 +220,7 @@ class Engine:
             self.taken.append((k, feas[1:]))
         self.pos += 1
         st.pc.append(conds[k])
+        self.trail.append(f"{getattr(getattr(self, 'cur_node', None), 'lineno', 0) - self.fn.lineno}:{k}")
         return k
 
     def branch(self, z):
@@ -243,7 +250,7 @@ class Engine:
             return
         n = self.site_ord.setdefault((kind, where), len([1 for k in self.site_ord if k[0] == kind]))
         oid = f"{self.c.prop}/{self.c.qual}/{kind}#{n}"
-        env = {"vars": dict(st.vars), "heap": st.heap.copy(), "nref": st.nref, "labels": dict(st.labels), "idx": list(st.idx)}
+        env = {"vars": dict(st.vars), "heap": st.heap.copy(), "nref": st.nref, "labels": dict(st.labels), "idx": list(st.idx), "trail": list(self.trail)}
         self.obligations.append(Obligation(oid, kind, list(st.pc), goal, list(st.idx), env, where))
 
     def assume(self, z):
@@ -274,7 +281,8 @@ class Engine:
         for nm, spec in c.ghost.items():
             st.vars[nm] = self.symbolic(nm, parse_type(spec), inp=True)
         if self.events_enabled:
-            st.vars["$trace"] = self.symbolic("$trace", ("list", ("rec", (("kind", "str"),))), inp=True)
+            # the ghost trace lives at the reserved reference -1: it can alias no program object
+            st.vars["$trace"] = V(("list", ("rec", (("kind", "str"),))), z3.IntVal(-1))
         self.params = {nm: st.vars[nm] for nm in st.vars}
         for nm, v in self.params.items():
             self.input_closure(v, v.ty, [], [], 0)
@@ -525,12 +533,21 @@ class Engine:
         for k, nentry, mods in st.frames:
             self.oblige("frame", z3.Or(ref >= nentry, *[ref == m for m in mods]), f"L{k}:{what}")
 
+    def drain(self):
+        st = self.st
+        if st.heap.pending:
+            st.pc.extend(st.heap.pending)
+            del st.heap.pending[:]
+
     def hread(self, name, sort, ref):
-        return self.st.heap.get(name, sort).read(ref)
+        v = self.st.heap.get(name, sort).read(ref)
+        self.drain()
+        return v
 
     def hwrite(self, name, sort, ref, val, what=""):
         self.wframe(ref, what or name)
         self.st.heap.store(name, sort, ref, val)
+        self.drain()
 
     def full_ty(self, v):
         t = v.ty
@@ -564,7 +581,7 @@ class Engine:
         return t[1]
 
     def el_name(self, ety):
-        return "el." + sort_tag(sort_of(ety))
+        return "el." + stag(ety)
 
     def list_get(self, v, idx, check=True, what=""):
         ety = self.elem_ty(v)
@@ -628,7 +645,7 @@ class Engine:
             raise OutOfSubset(f"record has no key {fname!r}: {owner_ty}")
         if owner_ty[0] == "tuple":
             return owner_ty[1 + int(fname[1:])]
-        cls = owner_ty[1]
+        cls = self.bi.ALIAS.get(owner_ty[1], owner_ty[1])
         for c in self.bi.mro(self, cls):
             if f"{c}.{fname}" in self.fields:
                 return self.fields[f"{c}.{fname}"]
@@ -638,7 +655,7 @@ class Engine:
 
     def fld_name(self, owner_ty, fname, ty):
         pre = {"rec": "k", "tuple": "t", "obj": "f"}[owner_ty[0]]
-        return f"{pre}.{fname}.{sort_tag(sort_of(ty))}"
+        return f"{pre}.{fname}.{stag(ty)}"
 
     def fld_read(self, obj, fname, what=""):
         oty = obj.ty
@@ -768,6 +785,8 @@ class Engine:
         if e.keys and all(isinstance(k, ast.Constant) and isinstance(k.value, str) for k in e.keys):
             return self.new_rec([(k.value, self.ev(v)) for k, v in zip(e.keys, e.values)])
         if not e.keys:
+            if self.st.spec or self.st.pure:
+                return V("any", atom("{}"))  # the empty dict as a value (no keys); see any.get
             return self.bi.new_dict(self, None, None)
         raise OutOfSubset("dict literal with non-constant keys")
 
@@ -1068,9 +1087,13 @@ class Engine:
         pass
 
     def st_Import(self, n):
-        pass
+        # function-local imports only bind names; recorded so that class names in raise/except resolve
+        for a in n.names:
+            self.local_imports[a.asname or a.name.split(".")[0]] = a.name if a.asname else a.name.split(".")[0]
 
-    st_ImportFrom = st_Import
+    def st_ImportFrom(self, n):
+        for a in n.names:
+            self.local_imports[a.asname or a.name] = (n.module or "") + "." + a.name
 
     def st_Global(self, n):
         raise OutOfSubset("global statement")
@@ -1200,6 +1223,36 @@ class Engine:
                     out.append(x.name)
         return out
 
+    def may_emit(self, nodes):
+        """conservative syntactic test: can executing these statements append to the ghost trace?"""
+        for root in nodes:
+            for x in ast.walk(root):
+                if not isinstance(x, ast.Call):
+                    continue
+                d = self.bi.dotted(x.func)
+                if d is None:
+                    if isinstance(x.func, ast.Attribute) and x.func.attr in ("append", "extend", "get", "pop", "items", "keys", "values", "add", "update", "sort", "join", "format", "startswith", "endswith", "lower", "upper", "strip", "split"):
+                        continue
+                    return True
+                if d.startswith(self.bi.LOG_SINK_PREFIXES) or d in self.bi.LOG_SINK_NAMES:
+                    continue
+                if d in self.c.externals:
+                    if self.c.externals[d].get("event"):
+                        return True
+                    continue
+                if d in self.bi.PY_BUILTINS or d in self.bi.LIB_FUNCS or d in self.bi.SPEC_FUNCS:
+                    continue
+                head = d.split(".")[0]
+                if head == "self" or (isinstance(x.func, ast.Name) and d not in self.cur_mod.classes):
+                    return True  # a repository method/function: may emit through its own externals
+                last = d.rsplit(".", 1)[-1]
+                if last in ("append", "extend", "get", "pop", "items", "keys", "values", "add", "update", "sort", "join", "format", "startswith", "endswith", "lower", "upper", "strip", "split"):
+                    continue
+                if d in self.cur_mod.classes or self.bi.find_class(self, d)[0] is not None or d.split(".")[-1][:1].isupper():
+                    continue  # constructor of a class (exceptions, records)
+                return True
+        return False
+
     def loop_spec(self, n):
         k = self.loop_ord.get(id(n))
         if k is None:
@@ -1243,6 +1296,8 @@ class Engine:
             self.oblige("inv-entry", z, f"L{k}/{j}")
         # 2. havoc
         mods = [self.ev_spec_value(x).z for x in spec.get("modifies_objs", [])]
+        if "$trace" in st.vars and spec.get("emits", self.may_emit(n.body)):
+            mods.append(st.vars["$trace"].z)  # the ghost trace may grow in this loop
         nentry = st.nref
         names = self.assigned_names(n.body + ([n.target] if is_for else []))
         for nm in names:
@@ -1260,9 +1315,10 @@ class Engine:
                 st.vars[nm] = self.symbolic(nm, ty)
             elif nm in spec.get("locals", {}) or nm in self.c.locals:
                 st.vars[nm] = self.symbolic(nm, parse_type(spec.get("locals", {}).get(nm) or self.c.locals[nm]))
-        st.heap.havoc(nentry, mods)
         st.nref = fresh("nref")
         st.pc.append(st.nref >= nentry)
+        st.heap.havoc(nentry, mods, st.nref)
+        self.drain()
         i = fresh(f"i{k}")
         st.vars[f"_i{k}"] = vint(i)
         st.vars[f"_nentry{k}"] = vint(nentry)
